@@ -1,6 +1,7 @@
 (* C04 — the packed CAN layout tiles the message.  Statements only. *)
 From Coq Require Import String ZArith List Bool.
 From FcpV Require Import Schema.Types Layout.Packed Layout.PackedProofs.
+From FcpV Require Import Py.BufferLib Layout.EncoderLib Layout.EncoderProofs.
 Import ListNotations.
 Open Scope Z_scope.
 
@@ -77,3 +78,55 @@ Example c04_nonvacuous :
   | None => False
   end.
 Proof. vm_compute. reflexivity. Qed.
+
+(* ---- encoding.py itself: class PackedEncoder is translated from the source on every run (harness/py2coq_enc.py ->
+   gen/PyEncoder.v); whenever the model lays a binding out, the translated generate() - called on an encoder object in any
+   earlier state - returns exactly the images of those pieces, which tile the message ---- *)
+Theorem source_layout_tiles :
+  forall sc unroll im ps (e0 : penc) fuel l,
+    NoDup (map sname (structs sc)) -> sig_ok im -> pe_fcp e0 = sc -> pe_unroll e0 = unroll ->
+    lresolve unroll sc (itype im) = Some l -> (ldepth l <= fuel)%nat ->
+    snd (generate unroll sc encoder_init im) = Some ps ->
+    (exists e1, PyEncoder.py_generate fuel e0 im = POk (e1, map pv ps)) /\ contiguous 0 ps (total_bits ps) /\ Forall (piece_ok im) ps.
+Proof. exact translated_layout_tiles. Qed.
+Print Assumptions source_layout_tiles.
+
+Theorem source_generate_is_model :
+  forall sc unroll (e : encoder) im (e' : encoder) ps (e0 : penc) fuel l,
+    NoDup (map sname (structs sc)) -> sig_ok im -> pe_fcp e0 = sc -> pe_unroll e0 = unroll ->
+    lresolve unroll sc (itype im) = Some l -> (ldepth l <= fuel)%nat ->
+    generate unroll sc e im = (e', Some ps) ->
+    PyEncoder.py_generate fuel e0 im = POk (mkenc sc unroll ps (enc_bitstart e'), map pv ps).
+Proof. exact translated_generate_is_model. Qed.
+Print Assumptions source_generate_is_model.
+
+Theorem source_generate_history_independent :
+  forall sc unroll im ps (e1 e2 : penc) fuel l,
+    NoDup (map sname (structs sc)) -> sig_ok im -> pe_fcp e1 = sc -> pe_unroll e1 = unroll -> pe_fcp e2 = sc -> pe_unroll e2 = unroll ->
+    lresolve unroll sc (itype im) = Some l -> (ldepth l <= fuel)%nat ->
+    snd (generate unroll sc encoder_init im) = Some ps ->
+    PyEncoder.py_generate fuel e1 im = PyEncoder.py_generate fuel e2 im.
+Proof. exact translated_generate_history_independent. Qed.
+Print Assumptions source_generate_history_independent.
+
+Example c04_source_nonvacuous :
+  let sc := {| structs :=
+       [ {| sname := "In"; sfields := [ {| fname := "x"; fid := 1; fty := SI 5; funit := None |};
+                                        {| fname := "y"; fid := 0; fty := SF32; funit := Some "V"%string |} ] |};
+         {| sname := "Out"; sfields :=
+              [ {| fname := "a"; fid := 3; fty := SU 3; funit := None |};
+                {| fname := "c"; fid := 2; fty := SArr (SStructRef "In") 2; funit := None |};
+                {| fname := "b"; fid := 0; fty := SArr (SU 7) 2; funit := None |} ] |} ];
+     enums := [] |} in
+  let im := {| iname := "Out"; iprotocol := "can"; itype := "Out"; ifields := [];
+               isignals := [ {| sbname := "x"; sbfields := [("endianess"%string, XStr "big")] |} ] |} in
+  NoDup (map sname (structs sc)) /\ sig_ok im /\
+  match lresolve true sc (itype im), snd (generate true sc encoder_init im), PyEncoder.py_generate 12 (penc_init sc true) im with
+  | Some l, Some ps, POk (_, vs) => (ldepth l <= 12)%nat /\ vs = map pv ps /\ length vs = 7%nat
+  | _, _, _ => False
+  end.
+Proof.
+  cbv zeta. split; [repeat constructor; cbn; intuition discriminate|]. split.
+  - intros name. unfold end_ok, sig_fields. cbn [isignals find sbname]. destruct (String.eqb "x" name); cbn; exact I.
+  - vm_compute. repeat split; repeat constructor.
+Qed.
